@@ -100,12 +100,62 @@ def _reduce_ufunc(op):
     return h
 
 
+def _elementwise2(I, fr, a, b, n, f):
+    """a binary ufunc: element by element with a scalar operand broadcast"""
+    if isinstance(a, ListV) or isinstance(b, ListV):
+        la = a.items if isinstance(a, ListV) else None
+        lb = b.items if isinstance(b, ListV) else None
+        if la is not None and lb is not None and len(la) != len(lb):
+            if len(la) == 1:
+                la = la * len(lb)
+            elif len(lb) == 1:
+                lb = lb * len(la)
+            else:
+                raise _RaisedExc(Raised('ValueError', n))
+        m_ = len(la if la is not None else lb)
+        return _array(_elementwise2(I, fr, la[i] if la is not None else a, lb[i] if lb is not None else b, n, f)
+                      for i in range(m_))
+    if isinstance(a, Elem) or isinstance(b, Elem):
+        return Elem(f(a.r if isinstance(a, Elem) else a, b.r if isinstance(b, Elem) else b))
+    return f(a, b)
+
+
 def _maximum2(I, fr, a, b, n):
-    return I.native['numpy.max'](I, fr, [ListV([a, b])], {}, n)
+    return _elementwise2(I, fr, a, b, n, lambda x, y: I.native['numpy.max'](I, fr, [ListV([x, y])], {}, n))
 
 
 def _minimum2(I, fr, a, b, n):
-    return I.native['numpy.min'](I, fr, [ListV([a, b])], {}, n)
+    return _elementwise2(I, fr, a, b, n, lambda x, y: I.native['numpy.min'](I, fr, [ListV([x, y])], {}, n))
+
+
+def _compare_ufunc(op):
+    def h(I, fr, args, kwargs, n):
+        if len(args) != 2 or kwargs:
+            raise Unsupported('comparison ufunc with extra arguments', n)
+        return _elementwise2(I, fr, args[0], args[1], n, lambda x, y: I.compare(op, x, y, n))
+    return h
+
+
+def _logical2(which):
+    def h(I, fr, args, kwargs, n):
+        if len(args) != 2 or kwargs:
+            raise Unsupported('logical ufunc with extra arguments', n)
+
+        def f(x, y):
+            if isinstance(x, bool) and isinstance(y, bool):
+                return (x and y) if which == 'and' else (x or y)
+            raise Unsupported('np.logical_%s of values that are not booleans' % which, n)
+        return _elementwise2(I, fr, args[0], args[1], n, f)
+    return h
+
+
+def _finfo(I, fr, args, kwargs, n):
+    """np.finfo(float): machine parameters as positive constants of their own (nothing is known about them but that)"""
+    o = Obj('finfo', closed=True)
+    for a_ in ('eps', 'tiny', 'max', 'resolution', 'smallest_normal'):
+        o.attrs[a_] = I.D.sym('FINFO<%s>' % a_)
+    o.attrs['min'] = I.neg(I.D.sym('FINFO<max>'))
+    return o
 
 
 # ---- itertools ------------------------------------------------------------------------------------------------------
@@ -381,7 +431,18 @@ def array_method(I, fr, b, name, args, kwargs, n):
                 return True, r2
             raise Unsupported('reshape to %s' % dims, n)
         if name == 'astype' and args:
-            r = _array(b.items, X._dtype_tag(args[0]))
+            tag = X._dtype_tag(args[0])
+            if tag in ('int', 'narrow', 'caller'):
+                # conversion to an integer type, a narrower float or the element type of a caller's container changes
+                # every value that is not an integer constant: the same hazard as a store into such a buffer
+                def leaves(v):
+                    for x in v.items:
+                        if isinstance(x, ListV):
+                            yield from leaves(x)
+                        else:
+                            yield x
+                fr.int_store(_array([], tag), list(leaves(b)), n)
+            r = _array(b.items, tag)
             return True, r
         if name in ('ravel', 'flatten') and not args:
             flat = []
@@ -429,6 +490,11 @@ def install():
         'numpy.cumsum': _cumsum, 'numpy.diff': _diff, 'numpy.stack': _stack, 'numpy.vstack': _stack,
         'numpy.hstack': N['numpy.concatenate'],
         'numpy.logical_not': _logical_not, 'numpy.invert': _logical_not,
+        'numpy.logical_and': _logical2('and'), 'numpy.logical_or': _logical2('or'),
+        'numpy.less': _compare_ufunc('<'), 'numpy.less_equal': _compare_ufunc('<='),
+        'numpy.greater': _compare_ufunc('>'), 'numpy.greater_equal': _compare_ufunc('>='),
+        'numpy.equal': _compare_ufunc('=='), 'numpy.not_equal': _compare_ufunc('!='),
+        'numpy.finfo': _finfo,
         'numpy.matmul': N['numpy.dot'],
     })
     N['numpy.where'] = _np_where3(N['numpy.where'])
